@@ -960,13 +960,27 @@ def run_machine_case(case, ctx, keys_filter=None, post=None, extra_flags=(), on_
             # all models forced on: the models the trace requires behave as before, the others see no events
             flags = ["-a"] + flags
         targ, tcwd = ctx.spell(tdir, int(ihash(case["actions"])[:6], 16))
+        pre = int(ihash(case["actions"])[10:14], 16) % 25
+        prestate = None
+        if pre == 3:
+            # output of an earlier emulation of something bigger is still lying in the trace directory
+            prestate = "stale output files"
+            junk = ("#Paraver (01/01/70 at 00:00):999999999_ns:0:1:1(9999:1)\n" + "2:0:1:1:9999:999999:1:1\n" * 20000).encode()
+            for fn in ("thread.prv", "cpu.prv", "thread.pcf", "cpu.pcf", "thread.row", "cpu.row", "nosv-breakdown.prv", "nanos6-breakdown.prv"):
+                with open(os.path.join(tdir, fn), "wb") as f:
+                    f.write(junk)
+        elif pre == 4:
+            # the trace is emulated twice in a row (the second run finds the first one's outputs and cfg/ directory)
+            prestate = "emulated twice"
+            ctx.run_tool("ovniemu", flags + [targ], cwd=tcwd)
         status, out, err = ctx.run_tool("ovniemu", flags + [targ], cwd=tcwd)
         verdict = emu_verdict(status, err)
         exp, why = m.end_verdict()
         info = {"sim_ns": m.now, "size": len(case["actions"]), "ihash": ihash(case["actions"]), "verdict": "%s/%s" % (exp, verdict),
                 "states": sorted(map(str, m.states_seen)), "faults": case.get("faults", {}),
                 "probes": dict(case.get("probes", {}), **({"looms with skewed clocks + offset table": 1} if extra else {}),
-                               **({"event-less stream of a non-thread part present": 1} if foreign else {}))}
+                               **({"event-less stream of a non-thread part present": 1} if foreign else {}),
+                               **({"pre-existing state: " + prestate: 1} if prestate else {}))}
         sample = {"world": w.describe(), "n_actions": len(case["actions"]),
                   "first_actions": [[a[0], a[1], a[2]] for a in case["actions"][:12]],
                   "expected": exp, "reason": why, "emulator": verdict}
